@@ -27,6 +27,7 @@ structure St where
   kind : Kind := .unset
   contents : List Nat := []
   value : Nat := 0
+  uid : Nat := 0            -- the update-id counter (`uniqueUpdateID`; an unbounded natural here)
   subs : List Sub := []
   hist : List Nat := []     -- stress: the variable's value history given by a `vhist` line
   ref : Option (List Mut) := none   -- stress: the notes of the set's reference subscription (`sref` line)
@@ -60,8 +61,8 @@ def deliverSet (subs : List Sub) (m : Mut) : List Sub :=
 /-- Runs one write: new state, reported mutation (empty if quiet), delivered? -/
 def setRun (st : St) (op : SetOp) : St × Mut × Bool :=
   match setUpd st.contents op with
-  | .change s' m => ({ st with contents := s', subs := deliverSet st.subs m }, m, true)
-  | .quiet _ => (st, ([], []), false)
+  | .change s' m => ({ st with contents := s', uid := st.uid + 1, subs := deliverSet st.subs m }, m, true)
+  | .quiet bump => ({ st with uid := if bump then st.uid + 1 else st.uid }, ([], []), false)
 
 def setAnswer (st : St) (op : SetOp) (ret : Mut → String) : St × String :=
   let (st', m, delivered) := setRun st op
@@ -74,7 +75,7 @@ def deliverVar (subs : List Sub) (p n : Nat) : List Sub :=
 
 def varRun (st : St) (f : Nat → Nat) : St × Bool :=
   match (varObj Nat 0 0).upd st.value f with
-  | .change v' n => ({ st with value := v', subs := deliverVar st.subs n.1 n.2 }, true)
+  | .change v' n => ({ st with value := v', uid := st.uid + 1, subs := deliverVar st.subs n.1 n.2 }, true)
   | .quiet _ => (st, false)
 
 def varAnswer (st : St) (f : Nat → Nat) (ret : String) : St × String :=
@@ -263,6 +264,12 @@ def stepLine0 (st : St) (toks : List String) : St × String :=
     | .set => (st, showSet st.contents ++ " |" ++ showSubs st)
     | _ => (st, toString st.value ++ " |" ++ showSubs st)
   | ["sub", f] => subscribe st (f == "1")
+  | ["uid"] => if st.kind == .unset then (st, "bad-op") else (st, toString st.uid)
+  | ["idle", n] =>
+    -- `n` calls of `Apply` that apply nothing: each is `setUpd … = .quiet true` (id consumed, nobody notified)
+    match st.kind, n.toNat? with
+    | .set, some n => ({ st with uid := st.uid + n }, "ok")
+    | _, _ => (st, "bad-op")
   | _ =>
     match st.kind, toks with
     | .set, ["add", x] =>
